@@ -218,6 +218,157 @@ def evaluate(scn: dict[str, Any], tag: str, only_plan: dict[str, Any] | None = N
     return {"violations": violations, "stats": stats, "sim_time_s": sim}
 
 
+# --------------------------------------------------------------------------
+# parallel leg: crash points and store faults inside the workers and the coordinator of -n N
+
+
+def run_par(scn: dict[str, Any], h: histsim.History, script: list[int] | None, faults: dict[str, Any] | None,
+            worker_faults: dict[str, Any] | None, kill_at: int | None, tag: str) -> dict[str, Any]:
+    cfg = scn["config"]
+    prefix = os.path.join(h.world.root, f"wlog-{tag}-")
+    ps = {
+        "workers": scn["par"]["workers"], "sched_seed": scn["par"]["sched_seed"], "script": script, "policy": {},
+        "store": cfg["store"], "num_shards": cfg.get("shards", 0), "worker_faults": worker_faults or {},
+        "kill_all_at_decision": kill_at, "worker_oplog_prefix": prefix, "parlog_path": os.path.join(h.world.root, f"par-{tag}.log"),
+    }
+    for f in os.listdir(h.world.root):
+        if f.startswith(f"wlog-{tag}-") or f == f"par-{tag}.log":
+            os.unlink(os.path.join(h.world.root, f))
+    r = h.run("warm", extra=["-n", str(ps["workers"])], faults=faults or {}, pre_hook=["sim.parsched", "install"], par=ps)
+    wl = {}
+    for i in range(ps["workers"]):
+        pth = prefix + f"{i}.json"
+        if os.path.exists(pth):
+            try:
+                with open(pth) as f:
+                    wl[i] = json.load(f)
+            except ValueError:
+                wl[i] = {"log": [], "fired": {}}
+    r["worker_logs"] = wl
+    return r
+
+
+def evaluate_par(scn: dict[str, Any], tag: str, only_plan: dict[str, Any] | None = None, max_plans: int = 60) -> dict[str, Any]:
+    h = histsim.History(scn, f"c04p-{os.getpid()}-{tag}")
+    stats: dict[str, Any] = {"plans": 0, "fired": {}, "landed_in_protocol": 0, "ops": 0, "by_kind": {}}
+    violations: list[dict[str, Any]] = []
+    SEQ = ["--native-parser"]
+    try:
+        r0 = h.run("warm", extra=SEQ)
+        if r0["status"] not in (0, 1, 2):
+            raise kit.HarnessError(f"warm-up abnormal: {r0['status']}")
+        for st in scn["steps"]:
+            h.apply_step(st)
+        snap = snapshot(h, "p0")
+        clock0 = h.run_clock_ns
+        clean = run_par(scn, h, None, None, None, None, "c")
+        if clean["status"] not in (0, 1, 2) or "par" not in clean:
+            raise kit.HarnessError(f"clean parallel run abnormal: {clean['status']} {str(clean.get('traceback'))[-600:]}")
+        script = clean["par"]["decisions"]
+        cold = h.cold(extra=SEQ)
+        if judge(clean, cold) is not None:
+            return {"violations": [], "stats": stats, "sim_time_s": h.world.sim_advance_s, "skipped": "clean parallel run differs from sequential (C07's subject)"}
+        stats["ops"] = sum(len(w["log"]) for w in clean["worker_logs"].values()) + len(clean["oplog"])
+        plans: list[dict[str, Any]] = []
+        for w, wl in sorted(clean["worker_logs"].items()):
+            for e in wl["log"]:
+                if e[1] in MUTATING:
+                    plans.append({"kind": "worker_crash_before", "worker": w, "n": e[0], "op": e[1], "record": runner.record_kind(e[2])})
+                if e[1] == "write":
+                    plans.append({"kind": "worker_fail_write", "worker": w, "n": e[0], "op": e[1], "record": runner.record_kind(e[2])})
+            for rk in ("data", "meta", "meta_ex"):
+                plans.append({"kind": "worker_fail_kind", "worker": w, "record": rk})
+        for e in clean["oplog"]:
+            if e[1] in MUTATING:
+                plans.append({"kind": "coordinator_crash_before", "n": e[0], "op": e[1], "record": runner.record_kind(e[2])})
+        nd = len(script)
+        rng = kit.rng_for(PROP, "parplans", kit.digest(scn))
+        for d in sorted(rng.sample(range(1, max(2, nd)), min(12, max(1, nd - 1)))):
+            plans.append({"kind": "kill_all_at_decision", "d": d})
+        if only_plan is not None:
+            plans = [only_plan]
+        elif len(plans) > max_plans:
+            keep = [p for p in plans if p.get("record") in ("meta", "meta_ex") and p["kind"] == "worker_crash_before"]
+            rest = [p for p in plans if p not in keep]
+            plans = keep[:max_plans] + rng.sample(rest, max(0, min(len(rest), max_plans - len(keep))))
+        for i, plan in enumerate(plans):
+            restore(h, snap)
+            h.run_clock_ns = clock0
+            wf = None
+            cf = None
+            kill = None
+            if plan["kind"] == "worker_crash_before":
+                wf = {str(plan["worker"]): {"crash_before": plan["n"]}}
+            elif plan["kind"] == "worker_fail_write":
+                wf = {str(plan["worker"]): {"fail_ops": {str(plan["n"]): "enospc"}}}
+            elif plan["kind"] == "worker_fail_kind":
+                wf = {str(plan["worker"]): {"fail_kinds": [plan["record"]]}}
+            elif plan["kind"] == "coordinator_crash_before":
+                cf = {"crash_before": plan["n"]}
+            elif plan["kind"] == "kill_all_at_decision":
+                kill = plan["d"]
+            fr = run_par(scn, h, script, cf, wf, kill, "f")
+            stats["plans"] += 1
+            stats["by_kind"][plan["kind"]] = stats["by_kind"].get(plan["kind"], 0) + 1
+            fired = dict(fr.get("fired") or {})
+            for wl in fr["worker_logs"].values():
+                for k_, n_ in (wl.get("fired") or {}).items():
+                    fired["worker_" + k_] = fired.get("worker_" + k_, 0) + n_
+            if plan["kind"] == "kill_all_at_decision":
+                fired["kill_all"] = 1 if fr["status"] not in (0, 1, 2) else 0
+            for k_, n_ in fired.items():
+                stats["fired"][k_] = stats["fired"].get(k_, 0) + n_
+            if any(fired.values()):
+                stats["landed_in_protocol"] += 1
+            if (i % 2 == 0) or scn["par"].get("next") == "seq":
+                nxt = h.run("warm", extra=SEQ)
+            else:
+                nxt = run_par(scn, h, None, None, None, None, "n")
+            v = judge(nxt, cold)
+            if v is not None:
+                v["faulted_run_status"] = fr["status"]
+                violations.append({"plan": plan, "violation": v})
+                if only_plan is None and len(violations) >= 6:
+                    break
+    finally:
+        sim = h.world.sim_advance_s
+        h.close()
+    return {"violations": violations, "stats": stats, "sim_time_s": sim}
+
+
+def gen_par(k: int, tier: str) -> dict[str, Any]:
+    rng = kit.rng_for(PROP, "par", k)
+    cfgs = [histsim.STORE_CONFIGS[0], histsim.STORE_CONFIGS[2], histsim.STORE_CONFIGS[0], histsim.STORE_CONFIGS[3]]
+    base = histsim.gen_history_scenario(rng, cfg=cfgs[k % len(cfgs)], max_steps=2, max_mods=7, clock_mode="plain")
+    for st in base["steps"]:
+        st["run"] = False
+    scn = dict(base)
+    mods = [m for m in sorted(base["project"]["mods"]) if "." not in m]
+    scn["project"]["roots"] = sorted(set(scn["project"]["roots"]) | {m for m in mods if rng.random() < 0.5})
+    scn["par"] = {"workers": rng.choice([2, 2, 3]), "sched_seed": rng.randrange(1 << 30)}
+    scn["clock"] = "spread"
+    return scn
+
+
+def par_task(item: tuple[int, str]) -> dict[str, Any]:
+    k, tier = item
+    scn = gen_par(k, tier)
+    r = evaluate_par(scn, f"p{k}", max_plans=40 if tier == "quick" else 400)
+    st = r["stats"]
+    out: dict[str, Any] = {
+        "k": 100000 + k,
+        "evaluations": st["plans"],
+        "sim_time_s": r["sim_time_s"],
+        "faults": dict({"par_" + a: b for a, b in st["fired"].items()}, **{"plan_" + a: b for a, b in st["by_kind"].items()}),
+        "probes": {"par_fault_landed": st["landed_in_protocol"], "par_store_ops_in_clean_run": st["ops"], "par_scenario_skipped": 1 if r.get("skipped") else 0},
+        "nontrivial": [kit.digest(scn)] if st["landed_in_protocol"] else [],
+        "interleavings": [],
+    }
+    if r["violations"]:
+        out["violations"] = [{"scenario": scn, "plan": v["plan"], "violation": v["violation"], "par": True} for v in r["violations"]]
+    return out
+
+
 def gen(k: int, tier: str) -> dict[str, Any]:
     rng = kit.rng_for(PROP, "scn", k)
     cfgs = [c for c in histsim.STORE_CONFIGS if not (c["format"] == "json" and c["shards"] == 1)]
@@ -238,6 +389,8 @@ def gen(k: int, tier: str) -> dict[str, Any]:
 
 
 def plan_class(plan: dict[str, Any], v: dict[str, Any]) -> str:
+    if plan["kind"].startswith(("worker_", "coordinator_", "kill_all")):
+        return f"{v['kind']}:{plan['kind']}:{plan.get('op', '')}_{plan.get('record', '')}"
     rec = ""
     if "pos" in plan:
         rec = plan["pos"][0] + "_" + runner.record_kind(plan["pos"][1])
@@ -248,6 +401,8 @@ def plan_class(plan: dict[str, Any], v: dict[str, Any]) -> str:
 
 def task(item: tuple[int, str]) -> dict[str, Any]:
     k, tier = item
+    if k >= 100000:
+        return par_task((k - 100000, tier))
     scn = gen(k, tier)
     r = evaluate(scn, f"s{k}", n_random=3 if tier == "quick" else 10)
     st = r["stats"]
@@ -308,6 +463,12 @@ def minimise(v: dict[str, Any]) -> dict[str, Any]:
 
 
 def finalise_task(v: dict[str, Any]) -> dict[str, Any]:
+    if v.get("par"):
+        r = evaluate_par(v["scenario"], "fin", only_plan=v["plan"])
+        hit = [x for x in r["violations"] if x["violation"]["kind"] == v["violation"]["kind"]]
+        if not hit:
+            raise kit.HarnessError(f"parallel-leg violation did not reproduce: {v['plan']}")
+        return {"scenario": v["scenario"], "plan": v["plan"], "violation": hit[0]["violation"], "par": True}
     small = minimise(v)
     r = evaluate(small["scenario"], "fin", only_plan=small["plan"])
     hit = [x for x in r["violations"] if x["violation"]["kind"] == v["violation"]["kind"]]
@@ -345,10 +506,11 @@ def run(tier: str) -> int:
     rep.stub_components = ["typeshed (lib-stub + fixture builtins)", "process death = os._exit(137) inside the store shim at the chosen op", "clock (cache mtimes from SimClock)"]
     rep.assumptions = [
         "a completed syscall / committed sqlite transaction survives the crash (process kill, not power loss)",
-        "single-process build in this leg; coordinator/worker crash points are exercised by the parallel leg (C07 engine) when built",
+        "parallel leg: worker/coordinator crash points and worker store failures are placed on the clean run's fixed schedule (sim/parsched.py); kill-all instants are sampled",
     ]
     n = 16 if tier == "quick" else 1200
-    items = [(k, tier) for k in range(n)]
+    n_par = 4 if tier == "quick" else 150
+    items = [(k, tier) for k in range(n)] + [(100000 + k, tier) for k in range(n_par)]
     known = kit.load_known_findings(PROP)
     # determinism self-test: the same scenarios again must give the same plans, faults and verdicts
     n_det = 2 if tier == "quick" else 24
@@ -396,7 +558,10 @@ def run(tier: str) -> int:
 def replay(path: str) -> int:
     with open(path) as f:
         rp = json.load(f)
-    r = evaluate(rp["scenario"], "replay", only_plan=rp["plan"])
+    if rp.get("par"):
+        r = evaluate_par(rp["scenario"], "replay", only_plan=rp["plan"])
+    else:
+        r = evaluate(rp["scenario"], "replay", only_plan=rp["plan"])
     print(json.dumps(r["violations"], indent=1, default=str)[:4000])
     if r["violations"]:
         print(f"VIOLATION property={PROP} replay={path}")
